@@ -885,8 +885,10 @@ theorem queries_via_wire (qs : Queries) (h : ∀ q ∈ qs, ∀ t ∈ q, valueOk 
     obtain ⟨wss, qs', hcs, hss, hlen, hany⟩ := ih (fun q hq => h q (by simp [hq]))
     refine ⟨ws :: wss, q' :: qs', ?_, ?_, by simp [hlen], ?_⟩
     · unfold clientTransform at hcs ⊢
+      simp only [Gen.Selector.clientForwardsEveryQuery, if_true] at hcs ⊢
       simp [Conv.mapM, hc, hcs, Conv.bind]
     · unfold serverConvert at hss ⊢
+      simp only [Gen.Selector.serverForwardsEveryQuery, if_true] at hss ⊢
       simp [Conv.mapM, hs, hss, Conv.bind]
     · intro l
       simp [List.any_cons, hq l, hany l]
